@@ -85,6 +85,21 @@ theorem stale_exact :
 theorem no_stale_reads :
     staleReads accesses clearedClassIds 1 registryLockRef objectLockRef = [] := by decide +kernel
 
+/-- **C15 for the working tree, life-cycle part, every history.**  The rule-level soundness theorem
+    applied to the regenerated table: in every enabled history whose `use` events instantiate the
+    tree's facts (a `live` fact's use follows a lookup under `loadedMu` kept since, a `valid` fact's
+    use follows a nil re-check under `refMu` kept since; fresh runners and the C01 holder ordering
+    as the hypothesis `Other`), no handler or scheduler path uses `model` / `llama` / `Options` /
+    `expireTimer` of a runner that `unload` has torn down. -/
+theorem no_use_of_torn_down_runner (G : Lock) (S : Nat → Lock) (Other : List LEv → Thread → Nat → Prop)
+    (hother : ∀ pre t o s, lrun G S LState.init pre = some s → Other pre t o → s.cleared o = false)
+    (tr : List LEv) (hconf : UseConforms accesses clearedClassIds 1 G S Other tr)
+    (pre post : List LEv) (t : Thread) (o f : Nat) (htr : tr = pre ++ LEv.use t o f :: post)
+    (s : LState) (hrun : lrun G S LState.init pre = some s) :
+    s.cleared o = false :=
+  stale_rule_sound accesses clearedClassIds 1 registryLockRef objectLockRef G S Other no_stale_reads hother
+    tr hconf pre post t o f htr s hrun
+
 /-- the guards of the life-cycle semantics' `clear` step hold in the tree: every clearing write
     holds the runner's own lock, the registry's insert/delete hold the registry lock, and there
     is something to protect -/
